@@ -894,6 +894,22 @@ impl GraphWorld {
             }
             // spurious re-invocations, in log order (so that consequences follow causes)
             let mut explained: BTreeSet<Key> = BTreeSet::new();
+            // the known finding travels up a chain of map_refs: a map_ref over a map_ref that counts as changed counts
+            // as changed itself (found by C06 thorough on `mapref_chain`, 9 actions; the first version attributed only
+            // direct dependants and reported the chained case under the plain signature -- a false alarm)
+            let mut reobserved: BTreeSet<Key> = out.mapref_reobserved_unchanged.clone();
+            loop {
+                let more: Vec<Key> = m
+                    .nodes
+                    .iter()
+                    .filter(|(k, n)| !reobserved.contains(*k) && matches!(&n.kind, RKind::MapRef(a) if reobserved.contains(a)))
+                    .map(|(k, _)| k.clone())
+                    .collect();
+                if more.is_empty() {
+                    break;
+                }
+                reobserved.extend(more);
+            }
             for ev in log.iter() {
                 let (k, args) = match ev {
                     Ev::Run { key, args } => (key, args.clone()),
@@ -907,7 +923,7 @@ impl GraphWorld {
                 // input changed is treated as changed when it is needed again, even if the
                 // projection is the same; its dependants then re-run on unchanged arguments.
                 let n = &m.nodes[k];
-                let by_known = n.kind.inputs().iter().any(|i| out.mapref_reobserved_unchanged.contains(i) || explained.contains(i));
+                let by_known = n.kind.inputs().iter().any(|i| reobserved.contains(i) || explained.contains(i));
                 if by_known {
                     vs.push(v("C06", "C06.spurious", "after-mapref-reobserved", format!("{k:?} ({}) was re-invoked on unchanged arguments {args:?}: its map_ref input was not needed while the map_ref's own input changed, and counts as changed when needed again although the projection is equal", kind_of(k))));
                     // does the re-run itself propagate? only if its cutoff lets an equal value through
